@@ -250,10 +250,10 @@ def handlerEvent (t : Transport) (decision : Option Bool) : Event :=
 /-- **tie**: in both handlers the `Ok` arm records the decision's own `allowed` flag with the request
     key under the handler's transport, the `Err` arm records an error, and nothing else is recorded -/
 theorem C15_tie_http_grpc_calls :
-    Gen.HTTP_METRIC_CALLS = [("ok", "record_request_with_key( MetricsTransport::Http, response.allowed, &req.key, )"),
-                             ("err", "record_error(MetricsTransport::Http)")] ∧
-    Gen.GRPC_METRIC_CALLS = [("ok", "record_request_with_key( MetricsTransport::Grpc, result.allowed, &req.key, )"),
-                             ("err", "record_error(MetricsTransport::Grpc)")] ∧
+    Gen.HTTP_METRIC_CALLS = [("err", "record_error(MetricsTransport::Http)"),
+                             ("ok", "record_request_with_key(MetricsTransport::Http, response.allowed, &req.key)")] ∧
+    Gen.GRPC_METRIC_CALLS = [("err", "record_error(MetricsTransport::Grpc)"),
+                             ("ok", "record_request_with_key(MetricsTransport::Grpc, result.allowed, &req.key)")] ∧
     Gen.RESP_METRIC_CALLS = ["record_request_with_key(MetricsTransport::Redis, allowed, &key)",
                              "record_request(MetricsTransport::Redis, allowed)"] := by decide
 
